@@ -125,9 +125,10 @@ Proof.
 Qed.
 
 Lemma step_thread_acc var st t st' : v_recover_own var = true -> v_save_rehome var = true -> v_retry_recheck var = true ->
+  v_save_deleted_only var = true ->
   step_thread var st t = Some st' -> inv_acc st -> inv_acc st'.
 Proof.
-  unfold step_thread. intros Vown Vre Vrt H I. rewrite Vown, Vre in H. pose proof I as [IE IT IC IL IA].
+  unfold step_thread. intros Vown Vre Vrt Vdel H I. rewrite Vown, Vre in H. pose proof I as [IE IT IC IL IA].
   destruct (nth_error (threads st) t) as [th|] eqn:Hth; [|discriminate].
   pose proof (IT t th Hth) as Tt. unfold twf in Tt.
   destruct (tpc th) as [rt | i | i | g s v | r] eqn:Hpc; try discriminate.
@@ -200,6 +201,7 @@ Proof.
     destruct (tout th) as [v s| |] eqn:Hout.
     + destruct (nth_error (caches st) (tcache th)) as [ca|] eqn:Hca; [|discriminate].
       pose proof (IC _ _ Hca) as Hcur.
+      rewrite (stale_zero_off var _ Vdel), orb_false_r in H.
       inversion H; subst st'; clear H.
       set (size := (if edeleted en then 0 else esz st + s)%Z) in *.
       assert (Hd : eattached en = true \/ size = 0%Z).
